@@ -222,8 +222,15 @@ def frames(prog: Program, rep: Report) -> None:
     ok = isinstance(res, Tup) and len(res.items) == 2 and all(isinstance(a, NF) for a in res.items) and res.items[0] == want.items[0] and res.items[1] == want.items[1]
     rep.check(rule, fi.qual, "returns (axis-1 result + i0, axis-0 result + j0)", ok, what_bad=f"got {vtext(res)}; the arrays are cut [J, I] so bilin_inv's first result is the y-index", what_ok="(X, Y) in full-grid coordinates", loc=fi.loc())
     # Output uses grid.xy2ll on the snapshot it writes
-    out = prog.role_func("output", "__init__")
-    ok = any(isinstance(n, ast.Assign) and unparse(n.targets[0]) == "self.xy2ll" and unparse(n.value) == "grid.xy2ll" for n in walk_no_nested(out.node))
+    out = prog.lview(prog.role_func("output", "__init__"))
+
+    def _is_grid_xy2ll(v: ast.expr) -> bool:
+        # grid.xy2ll, or getattr(grid, "xy2ll", <fallback for grids without the method>)
+        if unparse(v) == "grid.xy2ll":
+            return True
+        return isinstance(v, ast.Call) and unparse(v.func) == "getattr" and len(v.args) in (2, 3) and unparse(v.args[0]) == "grid" and isinstance(v.args[1], ast.Constant) and v.args[1].value == "xy2ll"
+
+    ok = any(isinstance(n, ast.Assign) and unparse(n.targets[0]) == "self.xy2ll" and _is_grid_xy2ll(n.value) for n in walk_no_nested(out.node))
     rep.check(rule, out.qual, "output converts with grid.xy2ll", ok, what_bad="self.xy2ll is not grid.xy2ll", what_ok="grid.xy2ll", loc=out.loc())
     wr = prog.role_func("output", "write")
     conv = [n for n in walk_no_nested(wr.node) if isinstance(n, ast.Assign) and isinstance(n.value, ast.Call) and unparse(n.value.func) == "self.xy2ll"]
@@ -288,7 +295,7 @@ def frames(prog: Program, rep: Report) -> None:
 
 def newton(prog: Program, rep: Report) -> None:
     rule = "R16.4"
-    fi = prog.func("sample.bilin_inv")
+    fi = prog.lview("sample.bilin_inv")
     dom = NFDomain(scalars={"x", "y", "f", "g"})
     snap = {}
 
@@ -304,6 +311,11 @@ def newton(prog: Program, rep: Report) -> None:
             return False
         if t.startswith("np.all("):
             snap["env_at_test"] = dict(fr.env)
+            if isinstance(test, ast.Call) and test.args and isinstance(test.args[0], ast.Compare):
+                try:
+                    snap["tested"] = it.eval(test.args[0].left, fr)
+                except Exception:  # noqa: BLE001
+                    pass
             return False  # not yet converged: take the Newton step
         return None
 
@@ -312,28 +324,55 @@ def newton(prog: Program, rep: Report) -> None:
     if "loop" not in snap:
         raise AnalysisError("bilin_inv: iteration loop over maxiter not found")
     env = fr.env
-    need = ["Fs", "Gs", "Fx", "Fy", "Gx", "Gy", "x", "y"]
-    missing = [k for k in need if not isinstance(env.get(k), NF)]
-    if missing:
-        raise AnalysisError(f"bilin_inv: expected locals {missing} not found as normal forms")
+    if not isinstance(env.get("x"), NF) or not isinstance(env.get("y"), NF):
+        raise AnalysisError("bilin_inv: the iterates x, y are not normal forms after one pass of the loop")
     x, y = NF.atom("x"), NF.atom("y")
     ix, iy = NF.atom("int(x)"), NF.atom("int(y)")
     axes = [Axis("first axis (x)", 0, ix, x - ix, 0, 1), Axis("second axis (y)", 1, iy, y - iy, 0, 1)]
-    for nm, arr in (("Fs", "F"), ("Gs", "G")):
-        for name, ok, detail in check_multilinear(env[nm], dom, arr, axes):
-            rep.check(rule, fi.qual, f"{nm} is the bilinear estimate of {arr}: {name}", ok, what_bad=detail, what_ok="", loc=fi.loc())
-    for nm, base, var in (("Fx", "Fs", "x"), ("Fy", "Fs", "y"), ("Gx", "Gs", "x"), ("Gy", "Gs", "y")):
-        d = env[base].diff(var)
-        rep.check(rule, fi.qual, f"{nm} = d{base}/d{var}", env[nm] == d, what_bad=f"{nm} = {env[nm]}; the derivative of the bilinear estimate is {d}", what_ok="partial derivative", loc=fi.loc())
+    # the bilinear estimates, whatever the locals are called (Fs, or Fdiff = estimate - f, or the result
+    # of an inlined helper): a local, or a local plus the target, that is the interpolant of the array
+    est = {}
+    for arr, tgt in (("F", "f"), ("G", "g")):
+        found = None
+        for nm, v in env.items():
+            if not isinstance(v, NF) or arr + "[" not in str(v):
+                continue
+            for cand, label in ((v, nm), (v + NF.atom(tgt), f"{nm} + {tgt}")):
+                res_ = check_multilinear(cand, dom, arr, axes)
+                if res_ and all(ok for _, ok, _ in res_):
+                    found = (label, cand, res_)
+                    break
+            if found:
+                break
+        if found is None:
+            # report against the conventional name when there is one, else as a missing estimate
+            v = env.get(arr + "s")
+            if isinstance(v, NF):
+                for name, ok, detail in check_multilinear(v, dom, arr, axes):
+                    rep.check(rule, fi.qual, f"{arr}s is the bilinear estimate of {arr}: {name}", ok, what_bad=detail, what_ok="", loc=fi.loc())
+            else:
+                rep.bad(rule, fi.qual, f"bilinear estimate of {arr}", f"no local of the iteration is the bilinear interpolant of {arr} at (x, y)", fi.loc())
+            continue
+        est[arr] = found[1]
+        for name, ok, detail in found[2]:
+            rep.check(rule, fi.qual, f"{arr}s is the bilinear estimate of {arr}: {name}", ok, what_bad=detail, what_ok=f"local {found[0]}", loc=fi.loc())
+    if len(est) < 2:
+        return
+    Fs, Gs = est["F"], est["G"]
+    J = {(b_, v_): e_.diff(v_) for b_, e_ in (("F", Fs), ("G", Gs)) for v_ in ("x", "y")}
+    # locals named like partial derivatives must be the partial derivatives
+    for nm, b_, v_ in (("Fx", "F", "x"), ("Fy", "F", "y"), ("Gx", "G", "x"), ("Gy", "G", "y")):
+        got = [k for k, v in env.items() if isinstance(v, NF) and v == J[(b_, v_)]]
+        rep.check(rule, fi.qual, f"{nm} = d{b_}s/d{v_}", bool(got), what_bad=f"no local holds the derivative of the bilinear estimate, {J[(b_, v_)]}", what_ok=f"partial derivative (local {got[0] if got else ''})", loc=fi.loc())
     dxs, dys = x - env["x"], y - env["y"]
-    r1, r2 = env["Fs"] - NF.atom("f"), env["Gs"] - NF.atom("g")
-    rep.check(rule, fi.qual, "Newton step solves Fx*dx + Fy*dy = Fs - f", env["Fx"] * dxs + env["Fy"] * dys == r1, what_bad=f"the update ({dxs}, {dys}) does not satisfy the first row of J*d = residual", what_ok="row 1", loc=fi.loc())
-    rep.check(rule, fi.qual, "Newton step solves Gx*dx + Gy*dy = Gs - g", env["Gx"] * dxs + env["Gy"] * dys == r2, what_bad="the update does not satisfy the second row of J*d = residual", what_ok="row 2", loc=fi.loc())
+    r1, r2 = Fs - NF.atom("f"), Gs - NF.atom("g")
+    rep.check(rule, fi.qual, "Newton step solves Fx*dx + Fy*dy = Fs - f", J[("F", "x")] * dxs + J[("F", "y")] * dys == r1, what_bad=f"the update ({dxs}, {dys}) does not satisfy the first row of J*d = residual", what_ok="row 1", loc=fi.loc())
+    rep.check(rule, fi.qual, "Newton step solves Gx*dx + Gy*dy = Gs - g", J[("G", "x")] * dxs + J[("G", "y")] * dys == r2, what_bad="the update does not satisfy the second row of J*d = residual", what_ok="row 2", loc=fi.loc())
     ret = [n for n in walk_no_nested(fi.node) if isinstance(n, ast.Return)]
     rep.check(rule, fi.qual, "returns (x, y): first result indexes the first array axis", len(ret) == 1 and unparse(ret[0].value) in ("(x, y)", "x, y"), what_bad=f"returns {unparse(ret[0].value) if ret else None}", what_ok="(x, y)", loc=fi.loc())
     # convergence test uses the residual of both equations
-    tst = snap.get("env_at_test", {}).get("H")
-    rep.check(rule, fi.qual, "stopping test on (Fs - f)^2 + (Gs - g)^2", isinstance(tst, NF) and tst == r1 * r1 + r2 * r2, what_bad=f"H = {vtext(tst)}", what_ok="squared residual", loc=fi.loc())
+    tst = snap.get("tested")
+    rep.check(rule, fi.qual, "stopping test on (Fs - f)^2 + (Gs - g)^2", isinstance(tst, NF) and tst == r1 * r1 + r2 * r2, what_bad=f"tested quantity = {vtext(tst)}", what_ok="squared residual", loc=fi.loc())
 
 
 def run(prog: Program, rep: Report, tier: str) -> None:
